@@ -531,10 +531,16 @@ Definition K : nat := 1000.
 
 Fixpoint cspec (v : pyval) (cm : option str) : nat :=
   match v with
-  | VCommented x c => cspec x (Some c)
+  | VCommented x c => cspec x (Some (joinc cm c))
   | VTrailing x _ => cspec x cm
   | _ => olen (truthy cm)
   end.
+
+Lemma joinc_len o c : (length (joinc o c) <= olen o + 1 + length c)%nat.
+Proof.
+  unfold joinc. destruct o as [[|a t]|]; cbn [truthy olen]; try lia.
+  destruct c; rewrite ?app_length; cbn [length]; lia.
+Qed.
 
 Lemma olen_truthy o : (olen (truthy o) <= olen o)%nat.
 Proof. destruct o as [[|x xs]|]; cbn; lia. Qed.
@@ -797,11 +803,12 @@ Proof.
       pose proof (olen_truthy cm). pose proof (olen_truthy tr). unfold K in *. lia.
   - (* commented *)
     cbn [vsize sorted_ok vsz] in *. fold (vsz v).
-    pose proof (IHn v ltac:(lia) Hok ctx (Some c) (truthy tr) Hm) as H. cbn [olen] in H.
-    pose proof (olen_truthy tr). unfold K in *. lia.
+    pose proof (IHn v ltac:(lia) Hok ctx (Some (joinc cm c)) (truthy tr) Hm) as H. cbn [olen] in H.
+    pose proof (olen_truthy tr). pose proof (joinc_len cm c). unfold K in *. lia.
   - (* trailing *)
     cbn [vsize sorted_ok vsz] in *. fold (vsz v).
-    pose proof (IHn v ltac:(lia) Hok ctx cm (Some c) Hm) as H. cbn [olen] in H. unfold K in *. lia.
+    pose proof (IHn v ltac:(lia) Hok ctx cm (Some (joinc (truthy tr) c)) Hm) as H. cbn [olen] in H.
+    pose proof (olen_truthy tr). pose proof (joinc_len (truthy tr) c). unfold K in *. lia.
   - (* call *)
     rewrite vsize_call in Hn. rewrite zcall. destruct Hok as [Ha Hk].
     assert (HA : forall x, In x args -> LinV x /\ sorted_ok x).
